@@ -537,6 +537,23 @@ func (em *emitter) emitAssignmentNode(node *ast.Assignment) {
 		return em.varStore.nonLocalVarIndex(expr)
 	}
 
+	// The operands of the index expressions and of the pointer indirections
+	// on the left side are evaluated before any assignment: if an operand is
+	// a local variable and the statement assigns to more than one operand,
+	// the variable could be assigned by the statement itself, so its value
+	// is copied.
+	evaluated := func(expr ast.Expression, reg int8, typ reflect.Type) int8 {
+		if len(node.Lhs) == 1 {
+			return reg
+		}
+		if ident, ok := expr.(*ast.Identifier); !ok || !em.fb.declaredInFunc(ident.Name) {
+			return reg
+		}
+		tmp := em.fb.newRegister(typ.Kind())
+		em.changeRegister(false, reg, tmp, typ, typ)
+		return tmp
+	}
+
 	// Emit an assignment.
 	addresses := make([]address, len(node.Lhs))
 	for i, v := range node.Lhs {
@@ -569,7 +586,10 @@ func (em *emitter) emitAssignmentNode(node *ast.Assignment) {
 			if exprType.Kind() == reflect.Map {
 				indexType = exprType.Key()
 			}
-			index := em.emitExpr(v.Index, indexType)
+			index := evaluated(v.Index, em.emitExpr(v.Index, indexType), indexType)
+			if k := exprType.Kind(); k == reflect.Map || k == reflect.Slice {
+				expr = evaluated(v.Expr, expr, exprType)
+			}
 			switch exprType.Kind() {
 			case reflect.Map:
 				if nonLocalMap, ok := nonLocalVarIndex(v.Expr); ok {
@@ -618,6 +638,8 @@ func (em *emitter) emitAssignmentNode(node *ast.Assignment) {
 				tmp := em.fb.newRegister(reflect.Pointer)
 				em.changeRegister(false, reg, tmp, typ, typ)
 				reg = tmp
+			} else {
+				reg = evaluated(v.Expr, reg, typ)
 			}
 			addresses[i] = em.addressPtrIndirect(reg, typ, pos, node.Type)
 		default:
